@@ -191,13 +191,34 @@ def mk_cast(ck, a, fromty, toty):
 
 # ---------------------------------------------------------------------------------------------
 
+PROJECTIONS = {}      # (trait's last segment, concrete self type, assoc name) -> (trait canon, type); filled when facts are loaded
+_PROJ_RE = re.compile(r"<([A-Za-z0-9_]+|\[[A-Za-z0-9_]+; \d+\]) as ([A-Za-z0-9_:]+)>::([A-Za-z0-9_]+)(?![A-Za-z0-9_(:<])")
+
+
+def normalize_proj(s):
+    """`<i128 as fixint::sealed::FixedInt>::Bytes` -> `[u8; 16]` when a local impl of that trait for that concrete type defines it"""
+    if not PROJECTIONS or not s or " as " not in s:
+        return s
+    def rep(m):
+        hit = PROJECTIONS.get((m.group(2).split("::")[-1], m.group(1), m.group(3)))
+        if hit is not None and hit[0].endswith(m.group(2).split("::", 1)[-1] if m.group(2).startswith("crate::") else m.group(2).split("::")[-1]):
+            return hit[1]
+        return m.group(0)
+    for _ in range(4):
+        s2 = _PROJ_RE.sub(rep, s)
+        if s2 == s:
+            break
+        s = s2
+    return s
+
+
 def subst_ty(s, sub):
     if not sub or not s:
         return s
     for k, v in sub.items():
         if k in s:
             s = re.sub(r"(?<![A-Za-z0-9_:])%s(?![A-Za-z0-9_])" % re.escape(k), lambda m: v, s)
-    return s
+    return normalize_proj(s)
 
 
 def _split_top(s):
